@@ -341,7 +341,7 @@ def _nak_nomd(ctx, w, sc, limit, L, NMAX):
 
 
 def plan(tier):
-    n = 3 if tier == "quick" else 6
+    n = 3 if tier == "quick" else 5
     return [
         Spec(f"src/eof-ack-procedure/Nmax={n}", "vf.harness.c04:h_src_eof", {"NMAX": n}, twin_share=0.2,
              obligations=["limit_fault", "abandoned", "peer_resumed"] + (["eof_resent"] if n > 1 else [])),
@@ -360,7 +360,7 @@ def plan(tier):
 
 BOUNDS = {
     "quick": "limit symbolic in [1,3]; clock advance per call symbolic 0..2 intervals; sender EOF procedure (incl. EOF(cancel) phase and abandonment, ACK arriving at any round), receiver Finished procedure (incl. Finished(cancel) phase and abandonment, ACK at any round), receiver NAK procedure on a two-segment file and, with a maximum packet length forcing one request per NAK PDU, on a three-segment file with two gaps (two NAK PDUs per sequence), and with the Metadata PDU lost (EOF first or after one File Data PDU; the sequence re-requests (0,0) and the whole file) (progress at any round resets the count; after the limit fault the Finished(cancel) exchange with limit 1 must end in abandonment)",
-    "thorough": "limit symbolic in [1,6]",
+    "thorough": "limit symbolic in [1,5]",
 }
 OUTSIDE = "limits above Nmax; the two waits the documentation lists as unimplemented inactivity handling; check-limit timers (C13); handler codes other than the defaults (C14)"
 FUNCTIONS = ["SourceHandler._handle_waiting_for_ack", "SourceHandler._handle_positive_ack_procedures", "SourceHandler._declare_fault", "SourceHandler._notice_of_cancellation",
